@@ -1,2 +1,42 @@
-(** Pinned statements of the C15 property theorems. *)
+(** Pinned statements of the C15 property theorems: compiled on every check, so a theorem cannot be
+    weakened silently. *)
 From V Require Import Base.Util Gql.Ast C15.Model C15.Spec C15.Properties.
+
+Check (C15_routes_agree : forall st meta M D,
+  model_ok M = true ->
+  doc_equiv D (sdl_doc M) ->
+  parsed_positions D ->
+  exists Sj, json_route (introspect st meta M) = Ok Sj /\ schema_equiv_on (vis_of M) Sj (ast_to_type_system D)).
+Print Assumptions C15_routes_agree.
+Check (C15_json_route_total : forall st meta M, exists Sj, json_route (introspect st meta M) = Ok Sj).
+Print Assumptions C15_json_route_total.
+Check (C15_json_key_style_irrelevant : forall meta M,
+  json_route (introspect Full meta M) = json_route (introspect Minimal meta M)).
+Print Assumptions C15_json_key_style_irrelevant.
+Check (C15_sdl_route_respects_doc_equiv : forall D D0 n,
+  doc_equiv D D0 ->
+  option_map norm_typedef (get_type (ast_to_type_system D) n) = option_map norm_typedef (get_type (ast_to_type_system D0) n)
+  /\ option_map norm_directive (get_directive (ast_to_type_system D) n) = option_map norm_directive (get_directive (ast_to_type_system D0) n)).
+Print Assumptions C15_sdl_route_respects_doc_equiv.
+Check (C15_shadow_root_refuted :
+  exists M D Sj,
+    dirs_ok M = true /\ implicit_roots_ok M = true /\ roots_ok M = true /\ desc_ok M = true
+    /\ doc_equiv D (sdl_doc M) /\ parsed_positions D
+    /\ json_route (introspect Full false M) = Ok Sj
+    /\ root_type Sj Mutation = Some (s "Mutation")
+    /\ root_type (ast_to_type_system D) Mutation = None).
+Print Assumptions C15_shadow_root_refuted.
+Check (C15_unreferenced_builtin_refuted :
+  exists M D Sj,
+    model_ok M = true /\ doc_equiv D (sdl_doc M) /\ parsed_positions D
+    /\ json_route (introspect Full true M) = Ok Sj
+    /\ get_type Sj (s "Float") = None
+    /\ get_type (ast_to_type_system D) (s "Float") <> None).
+Print Assumptions C15_unreferenced_builtin_refuted.
+Check (C15_meta_types_refuted :
+  exists M D Sj,
+    model_ok M = true /\ doc_equiv D (sdl_doc M) /\ parsed_positions D
+    /\ json_route (introspect Full true M) = Ok Sj
+    /\ get_type Sj (s "__Schema") <> None
+    /\ get_type (ast_to_type_system D) (s "__Schema") = None).
+Print Assumptions C15_meta_types_refuted.
